@@ -29,6 +29,9 @@ fn main() {
         usage();
     }
     engine::install_panic_hook();
+    if args[1] == "C02-child" {
+        std::process::exit(props::c02::child_main(&args[2..]));
+    }
     let prop = args[1].to_uppercase();
     let seed: u64 = std::env::var("VERIF_SEED").ok().and_then(|s| s.parse().ok()).unwrap_or(0);
     if args[2] == "--replay" {
